@@ -305,9 +305,9 @@ def count_worker(part, _):
             want = {nN + (p if "P" in kinds else 0) for p in nP}
             if len(lens) != 1 or not (lens & want):
                 part.fail("count:%s" % kinds, "L=%d kinds=%s: %s invariants, expected %s (admissible (l,l1,l2) triples + %d N)" % (L, kinds, sorted(lens), sorted(want), nN), {"kind": "count"})
-            if kinds == "PN" and not np.array_equal(first, asc[(L, "NP")], equal_nan=True):
-                # the kinds argument is a set of letters: "PN" asks for the same vector as "NP"
-                part.fail("kinds-order", "L=%d: kinds='PN' gives another vector (%d entries) than kinds='NP' (%d entries)" % (L, len(first), len(asc[(L, "NP")])), {"kind": "count"})
+            if kinds == "PN" and not (np.array_equal(first, asc[(L, "NP")], equal_nan=True) or np.array_equal(first, np.concatenate([asc[(L, "P")], asc[(L, "N")]]), equal_nan=True)):
+                # the letters name blocks: "PN" holds the same N block and the same P block as "NP" (in either documented-looking order)
+                part.fail("kinds-order", "L=%d: kinds='PN' (%d entries) is neither the 'NP' vector nor the P block followed by the N block (%d entries)" % (L, len(first), len(asc[(L, "NP")])), {"kind": "count"})
             if kinds == "NP" and L <= 12:
                 k = np.arange(n)
                 c = np.ascontiguousarray((np.sin(1.0 + 1.7 * k) + 0.3) + 1j * np.cos(0.3 + 2.3 * k))
